@@ -8,6 +8,7 @@ import (
 	"fmt"
 	nurl "net/url"
 	"strings"
+	"sync"
 	"testing"
 
 	"github.com/go-shiori/dom"
@@ -122,31 +123,153 @@ func TestGovcPagerLinksReplay(t *testing.T) {
 		{"directory-url-last-page", "http://example.com/foo/bar/4/", `<a href="/foo/bar/">1</a> <a href="/foo/bar/2/">2</a> <a href="/foo/bar/3/">3</a> 4`},
 		{"directory-url-middle-page", "https://example.com/foo/bar/2/", `<a href="/foo/bar/">1</a> 2 <a href="/foo/bar/3/">3</a> <a href="/foo/bar/4/">4</a>`},
 		{"javascript-prev", "http://example.com/art?page=3", `<a href="/art?page=1">1</a> <a href="javascript:go(2)">2</a> 3 <a href="/art?page=4">4</a>`},
+		// second batch (appended)
+		{"ftp-scheme-path-family", "http://example.com/reviews/x200/page/2", `<a href="ftp://example.com/reviews/x200/page/1">1</a> 2 <a href="ftp://example.com/reviews/x200/page/3">3</a> <a href="ftp://example.com/reviews/x200/page/4">4</a>`},
+		{"ftp-scheme-path-family-labels", "http://example.com/reviews/x200/page/2", `<a href="ftp://example.com/reviews/x200/page/1">Prev</a> <a href="ftp://example.com/reviews/x200/page/3">Next</a>`},
+		{"gopher-scheme-file-family", "http://example.com/news/story-2.html", `<a href="gopher://example.com/news/story-1.html">1</a> 2 <a href="gopher://example.com/news/story-3.html">3</a> <a href="gopher://example.com/news/story-3.html">Next</a>`},
 	}
-	evals, nontrivial := 0, 0
-	for _, c := range cases {
-		src := govcPagerDoc(c.pager)
-		page, _ := nurl.Parse(c.page)
+	evals, nontrivial, baseEvals, baseNontrivial := 0, 0, 0, 0
+	defer func() {
+		fmt.Printf("GOVC-CASES evaluations=%d distinct_nontrivial=%d rule=%s\n", evals, nontrivial, fmt.Sprintf("24 hand-written hostile pagers x {PrevNext,PageNumber}, plus document-level URL redirection (%d evaluations, %d with a link returned): %d document-level declarations (<base> on another host / with path / scheme-relative / other scheme / sub- and super-domain / userinfo / port, same host other path, rooted and relative base, two bases in both orders, base in body, javascript:/mailto:/empty/ftp base, link rel=next/prev, canonical, og:url) x 2 URL families x %d ways of writing the links (relative, query-only or dot-relative, rooted, absolute, scheme-relative, absolute on the base's host) x 2 pager structures x {PrevNext,PageNumber}; distinct by construction; non-trivial = a pagination link was returned", baseEvals, baseNontrivial, len(govcC16Bases), len(govcC16Styles)))
+	}()
+	check := func(key, src, pageStr, desc string) (returned bool) {
+		page, _ := nurl.Parse(pageStr)
 		for _, algo := range []PaginationAlgo{PrevNext, PageNumber} {
-			next, prev, ok := govcRunPager(t, src, c.page, algo)
+			next, prev, ok := govcRunPager(t, src, pageStr, algo)
 			evals++
 			if !ok {
 				continue
 			}
 			if next != "" || prev != "" {
 				nontrivial++ // the algorithm actually returned a link for this hostile pager
+				returned = true
 			}
 			if evals <= 3 {
-				fmt.Printf("GOVC-SAMPLE case %s algo %d page %s pager %s -> next=%q prev=%q\n", c.key, algo, c.page, c.pager, next, prev)
+				fmt.Printf("GOVC-SAMPLE case %s algo %d page %s pager %s -> next=%q prev=%q\n", key, algo, pageStr, desc, next, prev)
 			}
-			for what, link := range map[string]string{"NextPage": next, "PrevPage": prev} {
-				if msg := govcCheckRealLink(what, link, src, page); msg != "" {
-					t.Errorf("GOVC-FAIL %s/algo%d/%s :: %s (page %s, pager %s)", c.key, algo, what, msg, c.page, c.pager)
+			for _, wl := range [][2]string{{"NextPage", next}, {"PrevPage", prev}} {
+				if msg := govcCheckRealLink(wl[0], wl[1], src, page); msg != "" {
+					t.Errorf("GOVC-FAIL %s/algo%d/%s :: %s (page %s, pager %s)", key, algo, wl[0], msg, pageStr, desc)
+				}
+			}
+		}
+		return returned
+	}
+	for _, c := range cases {
+		check(c.key, govcPagerDoc(c.pager), c.page, c.pager)
+	}
+
+	// Document-level constructs that could redirect URL resolution or the same-host test: <base> elements.
+	// The oracle does not look at <base> at all: whatever the document declares, a returned link has to be an
+	// absolute http(s) URL on the host of the PAGE URL and the normalised target (resolved against the page
+	// URL) of an anchor of the document.
+	for _, b := range govcC16Bases {
+		for _, fam := range govcC16Families {
+			for _, st := range govcC16Styles {
+				for _, structure := range []string{"labels", "numbers"} {
+					const k, n = 2, 4
+					link := func(i int) string { return st.href(fam, b, i) }
+					var pb strings.Builder
+					if structure == "numbers" {
+						for i := 1; i <= n; i++ {
+							if i == k {
+								fmt.Fprintf(&pb, "%d ", i)
+							} else {
+								fmt.Fprintf(&pb, `<a href="%s">%d</a> `, link(i), i)
+							}
+						}
+						fmt.Fprintf(&pb, `<a href="%s">Prev</a> <a href="%s">Next</a>`, link(k-1), link(k+1))
+					} else {
+						fmt.Fprintf(&pb, `<a class="prev" href="%s">Previous page</a> <a class="next" href="%s">Next page</a>`, link(k-1), link(k+1))
+					}
+					src := `<html><head><title>Article</title>` + b.head + `</head><body>` + b.body + `<div id="content">` + govcPagerFiller +
+						`</div><div class="pagination">` + pb.String() + `</div></body></html>`
+					key := fmt.Sprintf("doc/%s/%s/%s/%s", b.key, fam.key, st.key, structure)
+					before := evals
+					if check(key, src, fam.abs("http://example.com", k), b.head+b.body+" "+pb.String()) {
+						baseNontrivial++
+					}
+					baseEvals += evals - before
 				}
 			}
 		}
 	}
-	fmt.Printf("GOVC-CASES evaluations=%d distinct_nontrivial=%d rule=%s\n", evals, nontrivial, "hand-written hostile pagers x {PrevNext,PageNumber}; distinct by construction; non-trivial = a pagination link was returned")
+}
+
+type govcC16Base struct {
+	key, head, body string
+	host            string // scheme://host the base points to when it names another origin ("" = none)
+}
+
+var govcC16Bases = []govcC16Base{
+	{"offsite-root", `<base href="http://evil.org/">`, ``, "http://evil.org"},
+	{"offsite-path", `<base href="http://origin-cms.example.org/reviews/">`, ``, "http://origin-cms.example.org"},
+	{"offsite-same-path", `<base href="http://evil.org/reviews/x200/page/">`, ``, "http://evil.org"},
+	{"offsite-https", `<base href="https://evil.org/reviews/">`, ``, "https://evil.org"},
+	{"offsite-scheme-relative", `<base href="//evil.org/reviews/">`, ``, "http://evil.org"},
+	{"offsite-subdomain", `<base href="http://cdn.example.com/reviews/">`, ``, "http://cdn.example.com"},
+	{"offsite-superdomain", `<base href="http://example.com.evil.org/reviews/">`, ``, "http://example.com.evil.org"},
+	{"offsite-userinfo", `<base href="http://example.com@evil.org/reviews/">`, ``, "http://evil.org"},
+	{"offsite-port", `<base href="http://example.com:8080/reviews/">`, ``, "http://example.com:8080"},
+	{"samehost-other-scheme", `<base href="https://example.com/reviews/">`, ``, "https://example.com"},
+	{"samehost-other-path", `<base href="http://example.com/archive/2019/">`, ``, ""},
+	{"samehost-same-dir", `<base href="http://example.com/reviews/">`, ``, ""},
+	{"rooted-base", `<base href="/elsewhere/deep/">`, ``, ""},
+	{"relative-base", `<base href="mirror/">`, ``, ""},
+	{"two-bases-offsite-first", `<base href="http://evil.org/reviews/"><base href="http://example.com/reviews/">`, ``, "http://evil.org"},
+	{"two-bases-offsite-second", `<base href="http://example.com/archive/"><base href="http://evil.org/reviews/">`, ``, "http://evil.org"},
+	{"target-then-offsite", `<base target="_blank"><base href="http://evil.org/reviews/">`, ``, "http://evil.org"},
+	{"offsite-in-body", ``, `<base href="http://evil.org/reviews/">`, "http://evil.org"},
+	{"javascript-base", `<base href="javascript:void(0)">`, ``, ""},
+	{"mailto-base", `<base href="mailto:a@evil.org">`, ``, ""},
+	{"empty-base", `<base href="">`, ``, ""},
+	{"ftp-base", `<base href="ftp://example.com/reviews/">`, ``, ""},
+	// other document-level declarations of "the" URL of the page or of its neighbours: none of them is an anchor
+	{"link-rel-next-offsite", `<link rel="next" href="http://evil.org/reviews/x200?page=3"><link rel="prev" href="http://evil.org/reviews/x200?page=1">`, ``, "http://evil.org"},
+	{"link-rel-next-not-an-anchor", `<link rel="next" href="http://example.com/reviews/x200?page=33"><link rel="prev" href="/reviews/x200/page/11">`, ``, ""},
+	{"canonical-offsite", `<link rel="canonical" href="http://evil.org/reviews/x200?page=2">`, ``, "http://evil.org"},
+	{"canonical-offsite-path", `<link rel="canonical" href="http://evil.org/reviews/x200/page/2">`, ``, "http://evil.org"},
+	{"og-url-offsite", `<meta property="og:url" content="http://evil.org/reviews/x200/page/2">`, ``, "http://evil.org"},
+	{"base-and-canonical-offsite", `<base href="http://evil.org/reviews/x200/page/"><link rel="canonical" href="http://evil.org/reviews/x200/page/2">`, ``, "http://evil.org"},
+}
+
+// a URL family of the <base> cases: the page URLs as written absolutely on an origin, relative to the
+// directory of the page, and in a second relative spelling (query-only / dot-relative)
+type govcC16Family struct {
+	key      string
+	abs      func(origin string, k int) string
+	relative func(k int) string
+	short    func(k int) string
+}
+
+var govcC16Families = []govcC16Family{
+	{"query",
+		func(o string, k int) string { return fmt.Sprintf("%s/reviews/x200?page=%d", o, k) },
+		func(k int) string { return fmt.Sprintf("x200?page=%d", k) },
+		func(k int) string { return fmt.Sprintf("?page=%d", k) }},
+	{"path",
+		func(o string, k int) string { return fmt.Sprintf("%s/reviews/x200/page/%d", o, k) },
+		func(k int) string { return fmt.Sprintf("%d", k) },
+		func(k int) string { return fmt.Sprintf("../page/%d", k) }},
+}
+
+type govcC16Style struct {
+	key  string
+	href func(fam govcC16Family, b govcC16Base, k int) string
+}
+
+var govcC16Styles = []govcC16Style{
+	{"relative", func(f govcC16Family, b govcC16Base, k int) string { return f.relative(k) }},
+	{"short", func(f govcC16Family, b govcC16Base, k int) string { return f.short(k) }},
+	{"rooted", func(f govcC16Family, b govcC16Base, k int) string { return f.abs("", k) }},
+	{"absolute", func(f govcC16Family, b govcC16Base, k int) string { return f.abs("http://example.com", k) }},
+	{"scheme-relative", func(f govcC16Family, b govcC16Base, k int) string { return f.abs("//example.com", k) }},
+	{"on-base-host", func(f govcC16Family, b govcC16Base, k int) string {
+		if b.host == "" {
+			return f.abs("http://evil.org", k)
+		}
+		return f.abs(b.host, k)
+	}},
 }
 
 // ---- C17 ----
@@ -167,6 +290,36 @@ var govcFamilies = []govcFamily{
 	{"file-suffix-plain", func(k int) string { return fmt.Sprintf("http://example.com/foo/story-%d.html", k) }},
 }
 
+// second batch of families (appended, the keys of the first batch are unchanged): more members of the three
+// kinds the property names. Path component: a single component with a short or long fixed part, the bare
+// number, the number followed by further components. Query parameter: other parameter names, the root path,
+// a script name. File-name suffix: other extensions, no separator, a "p" before the number.
+var govcFamiliesExt = []govcFamily{
+	{"single-p", func(k int) string { return fmt.Sprintf("http://example.com/p%d", k) }},
+	{"single-s", func(k int) string { return fmt.Sprintf("http://example.com/s%d", k) }},
+	{"single-page", func(k int) string { return fmt.Sprintf("http://example.com/page%d", k) }},
+	{"single-page-dash", func(k int) string { return fmt.Sprintf("http://example.com/page-%d", k) }},
+	{"single-p-slash", func(k int) string { return fmt.Sprintf("http://example.com/p%d/", k) }},
+	{"single-number", func(k int) string { return fmt.Sprintf("http://example.com/%d", k) }},
+	{"single-p-html", func(k int) string { return fmt.Sprintf("http://example.com/p%d.html", k) }},
+	{"two-p", func(k int) string { return fmt.Sprintf("http://example.com/story/p%d", k) }},
+	{"two-number", func(k int) string { return fmt.Sprintf("http://example.com/story/%d", k) }},
+	{"path-then-file", func(k int) string { return fmt.Sprintf("http://example.com/story/page/%d/fox.html", k) }},
+	{"path-then-name", func(k int) string { return fmt.Sprintf("http://example.com/story/page/%d/fox", k) }},
+	{"path-then-two", func(k int) string { return fmt.Sprintf("http://example.com/story/%d/fox/photos", k) }},
+	{"path-p-then-name", func(k int) string { return fmt.Sprintf("http://example.com/story/p%d/fox", k) }},
+	{"query-root-pg", func(k int) string { return fmt.Sprintf("http://example.com/?pg=%d", k) }},
+	{"query-p", func(k int) string { return fmt.Sprintf("http://example.com/article?p=%d", k) }},
+	{"query-pg-php", func(k int) string { return fmt.Sprintf("http://example.com/article.php?pg=%d", k) }},
+	{"query-paged-dir", func(k int) string { return fmt.Sprintf("http://example.com/blog/fox/?paged=%d", k) }},
+	{"query-pageno-first", func(k int) string { return fmt.Sprintf("http://example.com/article.html?pageno=%d&id=77", k) }},
+	{"file-suffix-htm", func(k int) string { return fmt.Sprintf("http://example.com/news/article-%d.htm", k) }},
+	{"file-suffix-php", func(k int) string { return fmt.Sprintf("http://example.com/news/article_%d.php", k) }},
+	{"file-suffix-p", func(k int) string { return fmt.Sprintf("http://example.com/news/article_p%d.html", k) }},
+	{"file-number-html", func(k int) string { return fmt.Sprintf("http://example.com/news/fox/%d.html", k) }},
+	{"file-suffix-noext", func(k int) string { return fmt.Sprintf("http://example.com/news/article-%d", k) }},
+}
+
 // markups around the Prev/Next anchors: with and without a page-ish class name
 var govcPagerWraps = []struct{ name, open, close string }{
 	{"pagination-div", `<div class="pagination">`, `</div>`},
@@ -179,79 +332,158 @@ func govcPagerDocWrapped(wrapOpen, pager, wrapClose string) string {
 		`</div>` + wrapOpen + pager + wrapClose + `</body></html>`
 }
 
+// govcC17Norm is the normalised form in which both algorithms report a link: no fragment and no trailing
+// slash at the end of the PATH (so "http://example.com/a/2/" -> ".../a/2", "http://example.com/dir/?p=2" ->
+// "http://example.com/dir?p=2" and "http://example.com/?p=2" -> "http://example.com?p=2"). For URLs without a
+// query this is the strings.TrimSuffix(url, "/") of the first version of this harness.
+func govcC17Norm(raw string) string {
+	u, err := nurl.Parse(raw)
+	if err != nil {
+		return raw
+	}
+	u.Fragment, u.RawFragment = "", ""
+	u.Path = strings.TrimSuffix(u.Path, "/")
+	u.RawPath = ""
+	return u.String()
+}
+
+// govcC17Unit is one (family, N, k) point: the numbered pager with PageNumber plus the labelled pagers with
+// PrevNext. Units are independent, so they are evaluated by a few workers and reported in generation order.
+type govcC17Unit struct {
+	fam               govcFamily
+	wraps             []struct{ name, open, close string }
+	n, k              int
+	evals, nontrivial int
+	sample            string
+	fails             []string // "key :: message"
+}
+
+func (u *govcC17Unit) failf(format string, args ...interface{}) {
+	u.fails = append(u.fails, fmt.Sprintf(format, args...))
+}
+
+func govcC17RunQuiet(src, pageURL string, algo PaginationAlgo) (next, prev string, ok bool) {
+	defer func() {
+		if r := recover(); r != nil {
+			ok = false
+		}
+	}()
+	u, err := nurl.ParseRequestURI(pageURL)
+	if err != nil {
+		return "", "", false
+	}
+	res, err := ApplyForReader(strings.NewReader(src), &Options{OriginalURL: u, PaginationAlgo: algo})
+	if err != nil {
+		return "", "", false
+	}
+	return res.PaginationInfo.NextPage, res.PaginationInfo.PrevPage, true
+}
+
+func (u *govcC17Unit) run() {
+	fam, n, k := u.fam, u.n, u.k
+	// the numbered pager: all pages as links except the current one (plain text)
+	var sb strings.Builder
+	for i := 1; i <= n; i++ {
+		if i == k {
+			fmt.Fprintf(&sb, "%d ", i)
+		} else {
+			fmt.Fprintf(&sb, `<a href="%s">%d</a> `, fam.url(i), i)
+		}
+	}
+	src := govcPagerDoc(sb.String())
+	wantNext, wantPrev := "", ""
+	if k < n {
+		wantNext = govcC17Norm(fam.url(k + 1))
+	}
+	if k > 1 {
+		wantPrev = govcC17Norm(fam.url(k - 1))
+	}
+	next, prev, ok := govcC17RunQuiet(src, fam.url(k), PageNumber)
+	u.evals++
+	if wantNext != "" || wantPrev != "" {
+		u.nontrivial++
+	}
+	u.sample = fmt.Sprintf("numbered pager family %s N=%d k=%d page %s pager %s -> next=%q prev=%q", fam.name, n, k, fam.url(k), sb.String(), next, prev)
+	if !ok {
+		u.failf("number/%s/N%d/k%d :: expected a result, the call failed", fam.name, n, k)
+	} else {
+		if next != wantNext {
+			u.failf("number/%s/N%d/k%d/next :: NextPage %q, expected %q", fam.name, n, k, next, wantNext)
+		}
+		if prev != wantPrev {
+			u.failf("number/%s/N%d/k%d/prev :: PrevPage %q, expected %q", fam.name, n, k, prev, wantPrev)
+		}
+	}
+
+	// the labelled pager: Prev / Next anchors pointing to k-1 / k+1, in several markups
+	for _, wrap := range u.wraps {
+		for _, prevLabel := range []string{"Prev", "Previous"} {
+			var lb strings.Builder
+			if k > 1 {
+				fmt.Fprintf(&lb, `<a href="%s">%s</a> `, fam.url(k-1), prevLabel)
+			}
+			if k < n {
+				fmt.Fprintf(&lb, `<a href="%s">Next</a>`, fam.url(k+1))
+			}
+			lsrc := govcPagerDocWrapped(wrap.open, lb.String(), wrap.close)
+			lnext, lprev, ok := govcC17RunQuiet(lsrc, fam.url(k), PrevNext)
+			u.evals++
+			if wantNext != "" || wantPrev != "" {
+				u.nontrivial++
+			}
+			if !ok {
+				u.failf("prevnext/%s/%s/N%d/k%d :: expected a result, the call failed", fam.name, wrap.name, n, k)
+				continue
+			}
+			if lnext != wantNext {
+				u.failf("prevnext/%s/%s/N%d/k%d/%s/next :: NextPage %q, expected %q", fam.name, wrap.name, n, k, prevLabel, lnext, wantNext)
+			}
+			if lprev != wantPrev {
+				u.failf("prevnext/%s/%s/N%d/k%d/%s/prev :: PrevPage %q, expected %q", fam.name, wrap.name, n, k, prevLabel, lprev, wantPrev)
+			}
+		}
+	}
+}
+
 func TestGovcConventionalPagerReplay(t *testing.T) {
 	evals, nontrivial := 0, 0
 	defer func() {
-		fmt.Printf("GOVC-CASES evaluations=%d distinct_nontrivial=%d rule=%s\n", evals, nontrivial, "every (URL family, N in 2..12, k in 1..N) x {numbered pager with PageNumber, Prev/Next and Previous/Next anchors with PrevNext}; distinct by construction; non-trivial = a non-empty link is expected and was compared")
+		fmt.Printf("GOVC-CASES evaluations=%d distinct_nontrivial=%d rule=%s\n", evals, nontrivial, "every (URL family, N in 2..12, k in 1..N) x {numbered pager with PageNumber, Prev/Next and Previous/Next anchors with PrevNext in 3 wrappers (first 8 families) or 2 wrappers (23 further families: single path component with short/long fixed part or bare number, number followed by more components, query at the root/dir/script path and other parameter names, htm/php/no extension)}; distinct by construction; non-trivial = a non-empty link is expected and was compared")
 	}()
-	for _, fam := range govcFamilies {
+	var units []*govcC17Unit
+	families := append(append([]govcFamily{}, govcFamilies...), govcFamiliesExt...)
+	for fi, fam := range families {
+		wraps := govcPagerWraps
+		if fi >= len(govcFamilies) {
+			wraps = []struct{ name, open, close string }{govcPagerWraps[0], govcPagerWraps[2]} // second batch: one page-ish and one plain wrapper
+		}
 		for n := 2; n <= 12; n++ {
 			for k := 1; k <= n; k++ {
-				// the numbered pager: all pages as links except the current one (plain text)
-				var sb strings.Builder
-				for i := 1; i <= n; i++ {
-					if i == k {
-						fmt.Fprintf(&sb, "%d ", i)
-					} else {
-						fmt.Fprintf(&sb, `<a href="%s">%d</a> `, fam.url(i), i)
-					}
-				}
-				src := govcPagerDoc(sb.String())
-				wantNext, wantPrev := "", ""
-				if k < n {
-					wantNext = strings.TrimSuffix(fam.url(k+1), "/")
-				}
-				if k > 1 {
-					wantPrev = strings.TrimSuffix(fam.url(k-1), "/")
-				}
-				next, prev, ok := govcRunPager(t, src, fam.url(k), PageNumber)
-				evals++
-				if wantNext != "" || wantPrev != "" {
-					nontrivial++
-				}
-				if evals <= 2 {
-					fmt.Printf("GOVC-SAMPLE numbered pager family %s N=%d k=%d page %s pager %s -> next=%q prev=%q\n", fam.name, n, k, fam.url(k), sb.String(), next, prev)
-				}
-				if !ok {
-					t.Errorf("GOVC-FAIL number/%s/N%d/k%d :: expected a result, the call failed", fam.name, n, k)
-					continue
-				}
-				if next != wantNext {
-					t.Errorf("GOVC-FAIL number/%s/N%d/k%d/next :: NextPage %q, expected %q", fam.name, n, k, next, wantNext)
-				}
-				if prev != wantPrev {
-					t.Errorf("GOVC-FAIL number/%s/N%d/k%d/prev :: PrevPage %q, expected %q", fam.name, n, k, prev, wantPrev)
-				}
-
-				// the labelled pager: Prev / Next anchors pointing to k-1 / k+1, in several markups
-				for _, wrap := range govcPagerWraps {
-					for _, prevLabel := range []string{"Prev", "Previous"} {
-						var lb strings.Builder
-						if k > 1 {
-							fmt.Fprintf(&lb, `<a href="%s">%s</a> `, fam.url(k-1), prevLabel)
-						}
-						if k < n {
-							fmt.Fprintf(&lb, `<a href="%s">Next</a>`, fam.url(k+1))
-						}
-						lsrc := govcPagerDocWrapped(wrap.open, lb.String(), wrap.close)
-						lnext, lprev, ok := govcRunPager(t, lsrc, fam.url(k), PrevNext)
-						evals++
-						if wantNext != "" || wantPrev != "" {
-							nontrivial++
-						}
-						if !ok {
-							t.Errorf("GOVC-FAIL prevnext/%s/%s/N%d/k%d :: expected a result, the call failed", fam.name, wrap.name, n, k)
-							continue
-						}
-						if lnext != wantNext {
-							t.Errorf("GOVC-FAIL prevnext/%s/%s/N%d/k%d/%s/next :: NextPage %q, expected %q", fam.name, wrap.name, n, k, prevLabel, lnext, wantNext)
-						}
-						if lprev != wantPrev {
-							t.Errorf("GOVC-FAIL prevnext/%s/%s/N%d/k%d/%s/prev :: PrevPage %q, expected %q", fam.name, wrap.name, n, k, prevLabel, lprev, wantPrev)
-						}
-					}
-				}
+				units = append(units, &govcC17Unit{fam: fam, wraps: wraps, n: n, k: k})
 			}
+		}
+	}
+	// the units share nothing; results are reported below in generation order, so the output is deterministic
+	const workers = 6
+	var wg sync.WaitGroup
+	for w := 0; w < workers; w++ {
+		wg.Add(1)
+		go func(w int) {
+			defer wg.Done()
+			for i := w; i < len(units); i += workers {
+				units[i].run()
+			}
+		}(w)
+	}
+	wg.Wait()
+	for i, u := range units {
+		evals += u.evals
+		nontrivial += u.nontrivial
+		if i < 2 {
+			fmt.Printf("GOVC-SAMPLE %s\n", u.sample)
+		}
+		for _, f := range u.fails {
+			t.Errorf("GOVC-FAIL %s", f)
 		}
 	}
 }
